@@ -3,9 +3,9 @@ PROPERTIES = ['C09', 'C14', 'C02']
 ENGINE = 'verus'
 CLASS = 'U'
 DOC = ('UpdateExecutor::execute_internal (executor update/mod.rs), from "Step 8: Apply all updates" to the end - how an UPDATE is APPLIED: every prepared '
-       '(position, old row, new row) is written to the table at ITS position with ITS new row, in order, all of them before anything else; then, after the '
-       'AFTER ROW triggers, for every prepared update - in order - the user-defined indexes are maintained with (old row, new row, position) and one Update '
-       'change (old row, new row) is recorded; the reported count is the number of prepared updates. Stated over the trace of storage operations.')
+       '(position, old row, new row) is written to the table at ITS position with ITS new row, in order, all of them before anything else; then, for every '
+       'prepared update - in order - the user-defined indexes are maintained with (old row, new row, position) and one Update change (old row, new row) is '
+       'recorded; only then do the AFTER ROW triggers run (fix ccc0b6aa: a failing trigger body finds everything maintained and recorded); the reported count is the number of prepared updates. Stated over the trace of storage operations.')
 
 TEMPLATE = r'''
 use vstd::prelude::*;
@@ -103,7 +103,7 @@ ITEMS = {
             ('re', r'(?s)table_mut\s*\.update_row_selective\(\*index, new_row\.clone\(\), changed_columns\)\s*\.map_err\(\|e\| ExecutorError::StorageError\(e\.to_string\(\)\)\)\?;', 'database.write_row(&stmt.table_name, *index, new_row.clone(), changed_columns)?;', 1),
             ('re', r'let mut index_updates = Vec::new\(\);', 'let mut index_updates: Vec<(usize, Row, Row)> = Vec::new();', 1),
             ('re', r'for \(index, old_row, new_row, changed_columns, _updates_pk\) in &updates \{', 'let mut ui__: usize = 0; while ui__ < updates.len() { let index = &updates[ui__].0; let old_row = &updates[ui__].1; let new_row = &updates[ui__].2; let changed_columns = &updates[ui__].3; ui__ = ui__ + 1;', 1),
-            ('re', r'for \(_index, old_row, new_row\) in &index_updates \{', 'let mut ti__: usize = 0; while ti__ < index_updates.len() { let old_row = &index_updates[ti__].1; let new_row = &index_updates[ti__].2; ti__ = ti__ + 1;', 1),
+            ('re', r'for \(_row_index, old_row, new_row, _changed_columns, _updates_pk\) in &updates \{', 'let mut ti__: usize = 0; while ti__ < updates.len() { let old_row = &updates[ti__].1; let new_row = &updates[ti__].2; ti__ = ti__ + 1;', 1),
             ('re', r'for \(index, old_row, new_row\) in index_updates \{', 'let mut xi__: usize = 0; while xi__ < index_updates.len() { let index = index_updates[xi__].0; let old_row = index_updates[xi__].1.clone(); let new_row = index_updates[xi__].2.clone(); xi__ = xi__ + 1;', 1),
             ('re', r'(?s)crate::TriggerFirer::execute_after_triggers\(\s*database,\s*&stmt\.table_name,\s*vibesql_ast::TriggerEvent::Update\(None\),\s*Some\(old_row\),\s*Some\(new_row\),\s*\)\?', 'after_row_trigger(database, &stmt.table_name, old_row, new_row)?', 1),
             ('re', r'(?s)crate::TriggerFirer::execute_after_statement_triggers\(\s*database,\s*&stmt\.table_name,\s*vibesql_ast::TriggerEvent::Update\(None\),\s*\)\?', 'after_statement_trigger(database, &stmt.table_name)?', 1),
@@ -117,27 +117,26 @@ ITEMS = {
             decreases updates@.len() - ui__,
 ''' % dict(T=_T), 1: '''
             invariant
-                ti__ <= index_updates@.len(), index_updates@.len() == updates@.len(),
-                forall|k: int| 0 <= k < updates@.len() ==> (#[trigger] index_updates@[k]) == (updates@[k].0, updates@[k].1, updates@[k].2),
-                database.trace() == old(database).trace() + writes(%(T)s, updates@, updates@.len() as int) + triggers(ti__ as int),
-            decreases index_updates@.len() - ti__,
-''' % dict(T=_T), 2: '''
-            invariant
                 xi__ <= index_updates@.len(), index_updates@.len() == updates@.len(),
                 forall|k: int| 0 <= k < updates@.len() ==> (#[trigger] index_updates@[k]) == (updates@[k].0, updates@[k].1, updates@[k].2),
-                database.trace() == old(database).trace() + writes(%(T)s, updates@, updates@.len() as int) + triggers(updates@.len() as int)
-                    + index_and_record(%(T)s, updates@, xi__ as int),
+                database.trace() == old(database).trace() + writes(%(T)s, updates@, updates@.len() as int) + index_and_record(%(T)s, updates@, xi__ as int),
             decreases index_updates@.len() - xi__,
+''' % dict(T=_T), 2: '''
+            invariant
+                ti__ <= updates@.len(),
+                database.trace() == old(database).trace() + writes(%(T)s, updates@, updates@.len() as int) + index_and_record(%(T)s, updates@, updates@.len() as int)
+                    + triggers(ti__ as int),
+            decreases updates@.len() - ti__,
 ''' % dict(T=_T)},
         proofs=[('@tail', 'proof { lemma_lens(%(T)s, updates@, updates@.len() as int); }' % dict(T=_T))],
         contract='''
     ensures
         res matches Ok(n) ==> ({
             let m = updates@.len() as int;
-            let base = old(database).trace() + writes(stmt.table_name, updates@, m) + triggers(m) + index_and_record(stmt.table_name, updates@, m);
+            let base = old(database).trace() + writes(stmt.table_name, updates@, m) + index_and_record(stmt.table_name, updates@, m) + triggers(m);
             let t = final(database).trace();
             &&& n == updates@.len()
-            // every prepared update written at its position with its row, in order; AFTER ROW triggers; then index maintenance + one Update record per update, in order
+            // every prepared update written at its position with its row, in order; then index maintenance + one Update record per update, in order; only then the AFTER triggers
             &&& (t == base || t == base.push(Ev::Trigger))
         }),
 '''),
@@ -150,6 +149,6 @@ CANARIES = ['canary_apply']
 TRUSTED = [
     'R6 (fragment kind tail): the statements of UpdateExecutor::execute_internal from "// Step 8: Apply all updates" to the end are lifted; NOT under contract: everything before it - row selection (units D-pk, E-truthy), the SET list (unit D-set), normalization and constraint validation of the new rows, cascades, BEFORE triggers',
     'the contract is over a TRACE of storage operations (ghost sequence Database::trace): external_body write_row (Table::update_row_selective on the statement table through get_table_mut - R12; its effect on the table and its hash indexes: unit K-table), update_indexes_for_update (unit I-update), record_change, the AFTER triggers (external_body after_row_trigger / after_statement_trigger - event Trigger: a trigger body may do anything); Row::clone / Str::clone are copies; require_table = get_table_mut(..).ok_or_else(..)?',
-    'on an ERROR in the middle (a storage error of update_row_selective, a failing AFTER trigger) the rows written so far stay written while NO index maintenance and NO change record has happened yet for them - nothing is claimed for the error case (observed, DESIGN 9b)',
+    'on an ERROR in the middle (a storage error of update_row_selective in the write loop) the rows written so far stay written while NO index maintenance and NO change record has happened yet for them (since fix 442858f2 the rows are normalized during validation, so the table does not reject them at this point; since fix ccc0b6aa a failing AFTER trigger comes after maintenance and recording) - nothing is claimed for the error case (observed, DESIGN 9b)',
     'Row / Str / ExecutorError / TriggerContext / ColSet (HashSet<usize>) opaque; UpdateStmt and TransactionChange reduced; R10 rewrites of the three `for` loops (two by reference, one consuming)',
 ]
